@@ -316,8 +316,21 @@ func main() {
 			}
 			return nil
 		}
+		r.Watch(127, append([]byte{byte(len(c.Old) >> 24), byte(len(c.Old) >> 16), byte(len(c.Old) >> 8), byte(len(c.Old))}, append(append([]byte(nil), c.Old...), c.New...)...))
+		defer r.WatchDone(127)
 		vs, _ := checkPair(c.Old, c.New)
 		return vs
+	}
+	r.Stuck = func(in []byte) kit.V {
+		if len(in) < 4 {
+			return kit.V{Key: "no-return", What: "Diff does not return"}
+		}
+		n := int(in[0])<<24 | int(in[1])<<16 | int(in[2])<<8 | int(in[3])
+		if n > len(in)-4 {
+			n = len(in) - 4
+		}
+		old, new := in[4:4+n], in[4+n:]
+		return kit.V{Key: "no-return old=" + kit.Q(old) + " new=" + kit.Q(new), What: fmt.Sprintf("Diff(%q, %q) does not return", old, new), Case: kase{Old: old, New: new}}
 	}
 	r.MaybeReplay()
 
@@ -359,6 +372,7 @@ func main() {
 				defer wg.Done()
 				var n int64
 				var prevOld, prevNew, prevOut, prevCopy []byte
+				var watchBuf []byte
 				fam.each(w, nw, func(old, new []byte) {
 					n++
 					if n&0x3fff == 0 && r.Expired() {
@@ -368,9 +382,12 @@ func main() {
 						return
 					}
 					atomic.AddInt64(&evals, 1)
+					watchBuf = append(append(append(watchBuf[:0], byte(len(old)>>24), byte(len(old)>>16), byte(len(old)>>8), byte(len(old))), old...), new...)
+					r.Watch(w, watchBuf)
 					quiet.RLock()
 					vs, h := checkPair(old, new)
 					quiet.RUnlock()
+					r.WatchDone(w)
 					if len(vs) > 0 {
 						// Diff is a pure function: a failure must show again at once. If it does
 						// not, the result was disturbed by other callers (shared state inside the
